@@ -332,7 +332,12 @@ type countW struct {
 	n  int
 }
 
-func (w *countW) Write(p []byte) (int, error) { w.mu.Lock(); w.n += len(p); w.mu.Unlock(); return len(p), nil }
+func (w *countW) Write(p []byte) (int, error) {
+	w.mu.Lock()
+	w.n += len(p)
+	w.mu.Unlock()
+	return len(p), nil
+}
 
 func runLeftovers(o opts) error {
 	var cs []loCase
